@@ -314,6 +314,33 @@ def gen_loops(rng):
     return bytes(out)
 
 
+def gen_highbits(rng):
+    """jump targets of 2^64 and more whose LOW bits (64, 32, 16 or 8 of them) equal the offset of a real jumpdest: for the
+    EVM such a jump is always a bad jump — a comparison that looks at a machine word only would take it for the jumpdest.
+    Constant targets through push9..push32, through jumpi, and a symbolic target with forced high bits"""
+    kind = rng.choice(["const", "const", "jumpi", "symbolic", "control"])
+    lowbits = rng.choice([64, 64, 64, 32, 16, 8])
+    hi = rng.choice([1, 1, 3, 1 << 63, (1 << 191) + 5, rng.getrandbits(100) | 1])
+    if kind in ("const", "control"):
+        n = rng.choice([9, 10, 16, 32]) if lowbits == 64 else rng.choice([5, 9, 32]) if lowbits == 32 else rng.choice([3, 9, 32]) if lowbits == 16 else rng.choice([2, 9, 32])
+        off = n + 2
+        val = ((hi << lowbits) | off) % (1 << (8 * n))
+        if kind == "control" or val < (1 << lowbits):
+            val = off                                     # the genuine jump: must stay an edge to the jumpdest
+        code = bytes([0x5f + n]) + val.to_bytes(n, "big") + b"\x56" + b"\x5b\x00"
+    elif kind == "jumpi":
+        n = rng.choice([9, 12, 32])
+        off = 2 + (n + 1) + 1 + 1                          # push1 c; pushN; jumpi; stop; jumpdest
+        val = ((hi << 64) | off) % (1 << (8 * n))
+        if val < (1 << 64): val |= 1 << 64
+        code = bytes([0x60, rng.choice([0, 1, 1])]) + bytes([0x5f + n]) + val.to_bytes(n, "big") + b"\x57\x00\x5b\x00"
+    else:
+        # (calldataload(0) << 64) | 2^255 | off
+        off = 2 + 1 + 2 + 1 + 33 + 1 + 1
+        code = b"\x60\x00\x35\x60\x40\x1b" + b"\x7f" + ((1 << 255) | off).to_bytes(32, "big") + b"\x17\x56" + b"\x5b\x00"
+    return code
+
+
 def gen_double_read(rng):
     """two reads of the same state-dependent quantity (same argument) feeding a comparison that decides a branch or a
     jump target: the machine state may change between the reads (a call in between), so they need not be equal"""
